@@ -46,15 +46,18 @@ def global_tables():
     import sys
     import inspect
     if not _TABLES:
+        from pyvc import fields
+        known = fields.baseline()          # tables the package had when the contracts were written; a table added since
+        #                                    (e.g. a lazily filled class-level memo) is not policed here
         for name, mod in list(sys.modules.items()):
             if not name.startswith("architecture_simulator") or mod is None:
                 continue
             for k, v in list(vars(mod).items()):
-                if isinstance(v, (dict, list, set)) and not k.startswith("__"):
+                if isinstance(v, (dict, list, set)) and not k.startswith("__") and k in known:
                     _TABLES.append(("%s.%s" % (name, k), v))
                 elif inspect.isclass(v) and getattr(v, "__module__", None) == name:
                     for a, x in list(vars(v).items()):
-                        if isinstance(x, (dict, list, set)) and not a.startswith("__"):
+                        if isinstance(x, (dict, list, set)) and not a.startswith("__") and a in known:
                             _TABLES.append(("%s.%s.%s" % (name, k, a), x))
     return {k: c20.dump(v) for k, v in _TABLES}
 
